@@ -153,6 +153,17 @@ def _slots(node):
 
 
 def expr_children(e):
+    """Direct sub-expressions in *visit* order (the order fpy2.ast.visitor.DefaultVisitor reaches them, read off
+    its _visit_* methods): an if-expression's condition before its arms, a comprehension's iterables before its
+    element, a list reference's value before its index.  Everything else holds one list of operands."""
+    if isinstance(e, A.IfExpr):
+        return [e.cond, e.ift, e.iff]
+    if isinstance(e, A.ListComp):
+        return list(e.iterables) + [e.elt]
+    if isinstance(e, A.ListRef):
+        return [e.value, e.index]
+    if isinstance(e, A.ListSlice):
+        return [x for x in (e.value, e.start, e.stop) if x is not None]
     out = []
     for s in _slots(e):
         if s.startswith('_'):
@@ -176,6 +187,19 @@ def expr_preorder(e):
     yield e
     for c in expr_children(e):
         yield from expr_preorder(c)
+
+
+def diff_roots(a, b):
+    """The top-most sub-expressions of `a` that are not reproduced in `b` at the same position."""
+    ca, cb = expr_children(a), expr_children(b)
+    if type(a) is not type(b) or len(ca) != len(cb):
+        return [a]
+    out = []
+    for x, y in zip(ca, cb):
+        out.extend(diff_roots(x, y))
+    if not out and not a.is_equiv(b):
+        return [a]
+    return out
 
 
 def stmt_own_exprs(stmt):
